@@ -144,9 +144,10 @@ func VerifGenAbsentFormatted() {
 	name := vBytes("name", 2)
 	vAssume(vAlnum(name))
 	withSpan := vBool2("span")
-	doc := `{"name":"` + name + `"}`
+	// the required date holds the zero value of its type: it is never omitted
+	doc := `{"name":"` + name + `","since":"0001-01-01"}`
 	if withSpan {
-		doc = `{"name":"` + name + `","span":"1h30m0s"}`
+		doc = `{"name":"` + name + `","since":"0001-01-01","span":"1h30m0s"}`
 	}
 	var s Stamp
 	err := json.Unmarshal([]byte(doc), &s)
@@ -168,6 +169,8 @@ func VerifGenAbsentFormatted() {
 	}
 	_, hasName := generic["name"]
 	vAssert(hasName, "a required member is not written")
+	since, hasSince := generic["since"]
+	vAssert(hasSince && string(since) == `"0001-01-01"`, "a required date holding the zero value is omitted or changed")
 	_, hasSpan := generic["span"]
 	vAssert(hasSpan == withSpan, "an optional duration is added or lost")
 	_, hasMail := generic["mail"]
